@@ -1,5 +1,8 @@
 import IPT.Gen.RangeGen
-/- prayer_times/date.rs (DateRange over day numbers) and the sequential range API -/
+/- prayer_times/date.rs (DateRange over day numbers) and the sequential range API.
+   SCOPE: day numbers are unbounded integers here; chrono's `NaiveDate` ends at 262142-12-31, and
+   `partition` panics (chrono overflow) when start + block passes that date - outside every property's
+   quantifier and not modelled. -/
 namespace IPT
 
 def usizeMod : Int := 18446744073709551616
